@@ -127,7 +127,18 @@ func execute(t run.TB, c Case) {
 				if call.Private {
 					if private[call.Spec] == nil {
 						if c.ShareTypes {
-							private[call.Spec] = hist.BuildSharing(c.Specs[call.Spec], shared[call.Spec])
+							// the type objects of the shared object of this spec - or, for specs of a
+							// sharing group, of the other spec of the group (same type objects, other
+							// definitions of what they refer to)
+							donor := shared[call.Spec]
+							if g := c.Specs[call.Spec].Group; g != "" {
+								for j, sp := range c.Specs {
+									if j != call.Spec && sp.Group == g {
+										donor = shared[j]
+									}
+								}
+							}
+							private[call.Spec] = hist.BuildSharing(c.Specs[call.Spec], donor)
 						} else {
 							private[call.Spec] = hist.Build(c.Specs[call.Spec])
 						}
@@ -191,6 +202,11 @@ func TestConcurrentSharing(t *testing.T) {
 				c.ShareTypes = false
 			}
 			c.Specs = append(c.Specs, sp)
+		}
+		if c.ShareTypes && rapid.IntRange(0, 2).Draw(t, "twins") == 0 {
+			c.Specs = append(c.Specs, hist.DrawTwinSpecs(t, "tw")...)
+			n = len(c.Specs)
+			run.Label("roots-sharing-type-objects-but-not-their-definitions")
 		}
 		g := rapid.SampledFrom([]int{2, 4, 8, 16, 32}).Draw(t, "goroutines")
 		overlap := false
